@@ -1,7 +1,11 @@
 ------------------------------ MODULE OptionsMC ------------------------------
 EXTENDS Options
-MCInst == 1 .. 3
-MCDimOf == [i \in 1 .. 3 |-> IF i = 1 THEN 2 ELSE IF i = 2 THEN 3 ELSE 1]
-MCUserOf == [i \in 1 .. 3 |-> IF i = 1 THEN {"aPlain", "bDim"}
-                              ELSE IF i = 2 THEN {} ELSE {"aDim", "aDep", "bPlain"}]
+\* four instances: dimensions 2, 3, 1 and again 2 (same dimension, different
+\* overrides: the second D=2 instance must not inherit anything derived from
+\* the first one's user options)
+MCInst == 1 .. 4
+MCDimOf == [i \in 1 .. 4 |-> IF i = 1 THEN 2 ELSE IF i = 2 THEN 3 ELSE IF i = 3 THEN 1 ELSE 2]
+MCUserOf == [i \in 1 .. 4 |-> IF i = 1 THEN {"aPlain", "bDim"}
+                              ELSE IF i = 2 THEN {}
+                              ELSE IF i = 3 THEN {"aDim", "aDep", "bPlain"} ELSE {}]
 =============================================================================
